@@ -102,6 +102,65 @@ static int run_case(const struct ecimpl *im, int len, int k, int rows, int soff,
 	return bad;
 }
 
+/* (e) long blocks: loop counters and offsets beyond 64 KiB and 1 MiB (k = 3, the kernel's natural row count), xorshift data,
+ * expected values computed on the fly from the reference multiplication table */
+static void run_big(const struct ecimpl *im, int len, int w)
+{
+	char key[256];
+	int k = 3, rows = w;
+	uint8_t *src[3], *dst[RMAX];
+	size_t tbl_bytes = im->gfni && im->level < 0 ? (size_t)8 * k * rows : ec_tbl_size(k, rows);
+	uint8_t *tbl = g_alloc(tbl_bytes, G_END);
+	for (int i = 0; i < k * rows; i++)
+		A[i] = (uint8_t)(0x53 + i * 29);
+	ec_tables(im, k, rows, A, tbl);
+	for (int i = 0; i < k; i++) {
+		src[i] = g_alloc(len, G_END);
+		fill_xorshift(src[i], len, 1000 + i);
+	}
+	for (int r = 0; r < rows; r++) {
+		dst[r] = g_alloc(len, G_END);
+		memset(dst[r], 0xAA, len);
+	}
+	uint8_t **srcv = g_alloc(k * sizeof(uint8_t *), G_END), **dstv = g_alloc(rows * sizeof(uint8_t *), G_END);
+	memcpy(srcv, src, k * sizeof(uint8_t *));
+	memcpy(dstv, dst, rows * sizeof(uint8_t *));
+	v_pcall_mode = 1;
+	if (V_TRY()) {
+		switch (im->kind) {
+		case K_DP1: PCALL(im->fn, len, k, tbl, srcv, dst[0]); break;
+		case K_DPN: PCALL(im->fn, len, k, tbl, srcv, dstv); break;
+		default: PCALL(im->fn, len, k, rows, tbl, srcv, dstv); break;
+		}
+		V_END();
+	} else {
+		snprintf(key, sizeof key, "%s fault len=%d k=3 rows=%d big", im->name, len, rows);
+		v_violation(key, "%s", v_fault_desc());
+		nfail++;
+		g_reset();
+		return;
+	}
+	v_eval();
+	for (int r = 0; r < rows; r++)
+		for (int j = 0; j < len; j++) {
+			uint8_t e = rgf_mul(A[r * k], src[0][j]) ^ rgf_mul(A[r * k + 1], src[1][j]) ^ rgf_mul(A[r * k + 2], src[2][j]);
+			if (dst[r][j] != e) {
+				snprintf(key, sizeof key, "%s wrong len=%d k=3 rows=%d big", im->name, len, rows);
+				v_violation(key, "output %d byte %d = %02x expected %02x", r, j, dst[r][j], e);
+				nfail++;
+				r = rows;
+				break;
+			}
+		}
+	if (g_check()) {
+		snprintf(key, sizeof key, "%s wrote-outside len=%d big", im->name, len);
+		v_violation(key, "%s", g_last_damage());
+		nfail++;
+	}
+	g_reset();
+	v_count("big_length_cases", 1);
+}
+
 int main(int argc, char **argv)
 {
 	v_init(argc, argv, "C03");
@@ -186,6 +245,17 @@ int main(int argc, char **argv)
 						run_case(im, lc[li], kc[ki], rows, -1, -1, 1, "c:rows");
 					v_nontrivial(v_mix(ii + 2000, rows * 16 + ki));
 				}
+		/* (e) long blocks */
+		{
+			static const int bigl[] = { 65536 + 17, (1 << 20) + 33, (1 << 24) + 65 };
+			for (int bi = 0; bi < (v_thorough ? 3 : 2); bi++)
+				if (v_mine(unit++)) {
+					if (v_deadline_hit() || nfail > 60)
+						goto out;
+					run_big(im, bigl[bi], w);
+					v_nontrivial(v_mix(ii + 4000, bi));
+				}
+		}
 		/* (d) the complete multiplication table through this kernel: k=1, c=0..255, every byte value in main loop and tail */
 		if (v_mine(unit++)) {
 			uint8_t *save = M[0];
